@@ -65,7 +65,12 @@ impl<const MAX_SIZE: usize> Default for PodStr<MAX_SIZE> {
 
 impl<const MAX_SIZE: usize> Display for PodStr<MAX_SIZE> {
     fn fmt(&self, formatter: &mut std::fmt::Formatter<'_>) -> std::fmt::Result {
-        let str = String::from_utf8_lossy(&self.value);
+        let end_index = self
+            .value
+            .iter()
+            .position(|&x| x == b'\0')
+            .unwrap_or(MAX_SIZE);
+        let str = String::from_utf8_lossy(&self.value[..end_index]);
         formatter.write_str(&str)
     }
 }
